@@ -215,7 +215,10 @@ for make in (lambda: create_new_processor(processor=proc, parameter_dict={'detec
              lambda: proc.replace({'pipeline.photon_collection.m.arguments.level': 5}), lambda: copy.deepcopy(proc),
              lambda: proc.replace({'detector.characteristics.quantum_efficiency': 0.5}),          # values the processor already holds
              lambda: create_new_processor(processor=proc, parameter_dict={'detector.characteristics.quantum_efficiency': 0.5}),
-             lambda: create_new_processor(processor=proc, parameter_dict={}), lambda: proc.replace({})):      # nothing to set: still a copy
+             lambda: create_new_processor(processor=proc, parameter_dict={}), lambda: proc.replace({}),      # nothing to set: still a copy
+             # the requested value IS an object of the caller's pipeline (sequential mode re-applies defaults read from the caller's processor)
+             lambda: create_new_processor(processor=proc, parameter_dict={'pipeline.photon_collection.m.arguments.table': proc.pipeline.photon_collection.models[0].arguments['table']}),
+             lambda: proc.replace({'pipeline.photon_collection.m.arguments.table': proc.pipeline.photon_collection.models[0].arguments['table']})):
     new = make()
     if new is proc or new.detector is proc.detector or new.pipeline is proc.pipeline:
         VIOLATED, DETAIL = True, 'the processor handed to a run IS the one of the caller (no copy made when the requested values equal the current ones)'
@@ -370,7 +373,16 @@ def new_processor_unit(label, qual, call, request=("detector", "pipeline")):
             key2 = L.make_key([VStr("pipeline"), VStr(C08.GROUP), ex.scn["names"][0], VStr("arguments"), ex.scn["argn"][0]])
             # the requested values are arbitrary: they MAY coincide with the values the processor already holds
             ex.st.assume(z3.And(QNEW >= 0, QNEW <= 1))
-            d = ex.st.alloc(HDict(([(key, VFloat(QNEW))] if "detector" in request else []) + ([(key2, VInt(z3.Int("swept_value")))] if "pipeline" in request else [])))
+            items = ([(key, VFloat(QNEW))] if "detector" in request else []) + ([(key2, VInt(z3.Int("swept_value")))] if "pipeline" in request else [])
+            if "callers list" in request:
+                # sequential mode re-applies the DEFAULT of every other swept key, read from the caller's processor: the requested value
+                # IS an object of the caller's pipeline (here: the list-valued second argument of the first model)
+                m0 = ex.st.cell(ex.scn["models"][0])
+                args_d = ex.st.cell(ex.st.cell(m0.fields["_arguments"]).fields["_arguments"])
+                own_list = args_d.items[1][1]
+                key3 = L.make_key([VStr("pipeline"), VStr(C08.GROUP), ex.scn["names"][0], VStr("arguments"), ex.scn["argn"][1]])
+                items.append((key3, own_list))
+            d = ex.st.alloc(HDict(items))
             holder.update(proc=proc, upto=ex.st.next_addr + 1, snap=None)
             holder["snap"] = C08.snapshot(ex)
             swept_arg = str(ex.scn["argn"][0].v)
@@ -398,7 +410,7 @@ def new_processor_unit(label, qual, call, request=("detector", "pipeline")):
 unit("C06", "new_processor")(new_processor_unit("new_processor", f"{MISC}::create_new_processor", lambda proc, d: ([], {"processor": proc, "parameter_dict": d})))
 unit("C06", "replace")(new_processor_unit("replace", f"{PR}::Processor.replace", lambda proc, d: ([proc, d], {})))
 # the same for requests that touch only the detector, only the pipeline, or nothing (a copy is a copy whatever is asked of it)
-for _req in (("detector",), ("pipeline",), ()):
+for _req in (("detector",), ("pipeline",), (), ("callers list",)):
     _t = "+".join(_req) or "nothing"
     unit("C06", f"replace[{_t}]")(new_processor_unit(f"replace[{_t}]", f"{PR}::Processor.replace", lambda proc, d: ([proc, d], {}), request=_req))
     unit("C06", f"new_processor[{_t}]")(new_processor_unit(f"new_processor[{_t}]", f"{MISC}::create_new_processor", lambda proc, d: ([], {"processor": proc, "parameter_dict": d}), request=_req))
